@@ -34,6 +34,7 @@ func init() {
 				"R17.2 defaults: flags (length=defaultCharRecipe.length=20, size 4, list words, separator hyphen, capitalize none, entropy false); defaultCharRecipe allow = the four classes, exclude = ambiguous, require empty; parseWordList maps words/syllables to the shipped lists, default case exits with the usage status",
 				"R17.3 wiring: charGenerator returns NewCharRecipe(*flagLength) with Allow/Require/Exclude = parseCharacterClasses(*flagAllow|Require|Exclude, default allow|require|exclude); wlGenerator returns NewWLRecipe(*flagSize, list) with SeparatorFunc/Capitalize from the flags; parseCharacterClasses ORs ccMap entries of the split value (or defaults when empty); main calls Generate/Entropy on the recipe built for the matched subcommand",
 				"R17.4 exit statuses: constants 0/1/2; flag sets are ExitOnError; every live path that does not pass a generator constructor ends in os.Exit(2); generation error -> log.Fatal* (status 1) before any stdout write; success path returns normally",
+				"R17.6 every package-level variable of cmd/opgen (word tables, default record, preset map, flag variables, exit codes) keeps its initialiser's value: no store, map/slice update or address escape anywhere in the module outside the package initialiser",
 				"R17.5 stdout discipline: exactly one stdout-writing call on every live path from main's entry to its return (Println, or Printf with a constant format containing exactly one trailing newline); no other function reachable from main writes to stdout unless dominated by an unhonourable-recipe guard (size-valued parameter < 1)",
 			},
 			Trusted:    append([]string{"package flag: ExitOnError exits with status 2 on an unknown flag", "log.Fatal* writes to stderr and exits with status 1"}, commonTrusted...),
@@ -196,6 +197,13 @@ func runC17(p *core.Program, r *core.Report) {
 		return
 	}
 	inits := core.GlobalInits(p.Cmd)
+	// the tables, defaults and flag variables are read from their initialisers: nothing in the
+	// module may change them afterwards (R17.6; the flag package writes through the pointers the
+	// flag variables hold, never to the variables)
+	checkPackageVarsFrozen(p, r, "R17.6", p.Cmd, "CLI", 10)
+	// … and the library values the tables point at (digit -> SFDigits1, none -> SFNone, the class
+	// flags, the shipped lists) are the documented ones only while nobody reassigns them (= C16 R16.6)
+	r.Borrow("R17.6", func() { checkDocumentedGlobalsFrozen(p, r, "R16.6") })
 	cli = resolveCLI(p, inits)
 	cliInits = inits
 	initFn := core.PackageInit(p.Cmd)
